@@ -457,3 +457,51 @@ Proof.
   rewrite wf_flat_app, (IH H3), andb_true_r. cbn [wf_flat forallb wf_psep negb andb].
   rewrite Hi, Hw'. cbn [andb]. exact Hf'.
 Qed.
+
+(* ------------------------------------------------------------------ a value on the last line, without final line break *)
+
+Lemma plain_last_eof f s chunks spaces w tsp :
+  wf_word w = true ->
+  s_rest s = w ++ sp tsp ++ [0] ->
+  plain_scalar_f (S (S f)) false s chunks spaces =
+  Ok (after s (w ++ sp tsp), chunks ++ spaces ++ [w]).
+Proof.
+  intros Hw Hr. destruct (wf_word_inv _ Hw) as (c0 & w' & Ew & Hc0 & Hc35 & Hok & Hlast).
+  destruct tsp as [|tsp].
+  - cbn [sp repeat app] in *. rewrite app_nil_r.
+    cbn [plain_scalar_f].
+    assert (Hpk : peek s 0 = Ok c0). { eapply peek0. rewrite Hr, Ew. reflexivity. }
+    rewrite Hpk. cbn [bind]. replace (c0 =? c_hash) with false by (unfold c_hash; lia).
+    assert (Hpl : plain_len false (s_rest s) = Ok (length w)).
+    { rewrite Hr. apply plain_len_word; [assumption | assumption | apply plain_len_stop; reflexivity]. }
+    rewrite Hpl. cbn [bind].
+    destruct (length w) as [|lw] eqn:Elw; [rewrite Ew in Elw; discriminate|]. rewrite <- Elw.
+    rewrite (prefix_app s w _ Hr).
+    assert (Hnocr : Forall nocr w) by (apply Forall_txtc_nocr, forallb_okc_txtc; assumption).
+    rewrite (forward_after w s _ Hnocr Hr). cbn [bind].
+    pose proof (rest_after _ _ _ Hr) as Hr1.
+    unfold scan_plain_spaces. rewrite Hr1. cbn [count_while].
+    replace (0 =? c_space) with false by reflexivity. cbn [bind forward].
+    rewrite (peek0 _ _ _ Hr1). cbn [bind negb andb].
+    replace (mem_N 0 in_scan_plain_spaces_0) with false by reflexivity.
+    unfold prefix. cbn [firstn nonempty bind]. rewrite (peek0 _ _ _ Hr1). reflexivity.
+  - rewrite (plain_word_sep false (S f) s chunks spaces w (PSp (S tsp)) 0 [] Hw);
+      [| cbn; lia | reflexivity | exact Hr].
+    replace (0 =? c_hash) with false by reflexivity. cbn [orb print_psep].
+    assert (Hcol : (s_col (after s (w ++ sp (S tsp))) <? 1) = false).
+    { rewrite col_after.
+      - rewrite app_length, sp_length. lia.
+      - apply Forall_app. split; [apply Forall_txtc_colc, forallb_okc_txtc; assumption | apply sp_colc]. }
+    rewrite Hcol. cbn [plain_scalar_f].
+    assert (Hr1 : s_rest (after s (w ++ sp (S tsp))) = [0]).
+    { apply rest_after. rewrite Hr, <- app_assoc. reflexivity. }
+    rewrite (peek0 _ _ _ Hr1). cbn [bind]. replace (0 =? c_hash) with false by reflexivity.
+    rewrite Hr1. cbn [plain_len]. replace (mem_N 0 in_scan_plain_scalar_0) with true by reflexivity.
+    cbn [bind]. reflexivity.
+Qed.
+
+Lemma tailspec_eof tsp f : tailspec false (S (S f)) (sp tsp ++ [0]) (sp tsp).
+Proof. intros s chunks spaces w Hw Hr. apply plain_last_eof; assumption. Qed.
+
+Lemma tailspec_comment2 tsp t f : tsp <> O -> tailspec false (S (S f)) (sp tsp ++ 35 :: t) (sp tsp).
+Proof. intros H. apply tailspec_comment. exact H. Qed.
